@@ -1,11 +1,482 @@
 package c07
 
-import (
-	"testing"
+// Live mode (thorough tier): the same real nodes, but driven through the production entry point grpc.Protocol.Handle (one goroutine
+// per message, TransactionLists through the list handler's channel), real gossip tickers at 20 ms, a lossy/duplicating network of
+// goroutines, transactions created while syncing and forged messages with tampered transactions - all under the race detector.
+// It runs in a child process (a panic in one of production's background goroutines must not take the monitor down).
+// Verdicts: safety (never an invalid transaction, never a removal, end state consistent) and race reports can alarm; convergence is
+// "held" or INCONCLUSIVE (wall-clock watchdog), never a violation.
 
+import (
+	"context"
+	"encoding/json"
+	"fmt"
+	"hash/fnv"
+	"io"
+	"math/rand"
+	"os"
+	"path/filepath"
+	"strconv"
+	"strings"
+	"sync"
+	"sync/atomic"
+	"testing"
+	"time"
+
+	"github.com/nuts-foundation/nuts-node/crypto/hash"
+	"github.com/nuts-foundation/nuts-node/network/dag"
+	"github.com/nuts-foundation/nuts-node/network/transport/grpc"
+	v2 "github.com/nuts-foundation/nuts-node/network/transport/v2"
+	"github.com/sirupsen/logrus"
+	"google.golang.org/protobuf/proto"
+	"verif/lib/dagx"
 	"verif/lib/ev"
+	"verif/lib/worker"
 )
 
+func TestMain(m *testing.M) {
+	worker.Register("c07live", liveWorker)
+	worker.Main(m)
+}
+
+const (
+	liveGossipMs = 25
+	liveTimeout  = 4 * time.Second
+)
+
+type liveLine struct {
+	Kind     string         `json:"kind"` // violation | inconclusive | scenario | fatal
+	Key      string         `json:"key,omitempty"`
+	What     string         `json:"what,omitempty"`
+	Witness  map[string]any `json:"witness,omitempty"`
+	Counters map[string]int `json:"counters,omitempty"`
+	Sample   map[string]any `json:"sample,omitempty"`
+}
+
+// liveMode (parent side): runs the child and turns its ledger into verdicts and evidence.
 func liveMode(t *testing.T, r *ev.Run, su *suite) {
-	r.Extra("live_mode", "not built yet")
+	out := filepath.Join(su.dir, "live.ledger")
+	res := worker.Run("c07live", []string{strconv.FormatInt(r.Seed(), 10), out, su.dir}, 12*time.Minute)
+	scenarios, converged := 0, 0
+	for _, ln := range worker.ReadLedger(out) {
+		var l liveLine
+		if err := json.Unmarshal([]byte(ln), &l); err != nil {
+			continue
+		}
+		switch l.Kind {
+		case "violation":
+			r.Violation(l.Key, l.What, l.Witness)
+		case "inconclusive":
+			r.Inconclusive(l.What)
+		case "fatal":
+			r.Fatalf("live mode: %s", l.What)
+		case "scenario":
+			scenarios++
+			for k, v := range l.Counters {
+				r.Count("live/"+k, v)
+			}
+			if l.Sample["converged"] == true {
+				converged++
+			}
+			r.Case("live|"+fmt.Sprint(l.Sample["fingerprint"]), true)
+			if scenarios <= 2 {
+				r.Sample(l.Sample)
+			}
+		}
+	}
+	r.Extra("live_mode", map[string]any{"scenarios": scenarios, "converged_before_watchdog": converged, "child_exit": res.ExitCode, "child_timed_out": res.TimedOut})
+	switch {
+	case res.TimedOut:
+		r.Inconclusive("live mode child process did not finish within its watchdog")
+	case res.ExitCode == 66 && !res.Signaled && !strings.Contains(res.Output, "panic:"):
+		// exit status of the race detector: the reports are in the race log, which ./check parses and gates on
+		r.Extra("live_mode_race_detector_exit", true)
+	case res.ExitCode != 0 || res.Signaled:
+		tail := res.Output
+		if len(tail) > 3000 {
+			tail = tail[len(tail)-3000:]
+		}
+		if i := strings.Index(res.Output, "panic:"); i >= 0 {
+			fn := panicFunction(res.Output[i:])
+			r.Violation("C07/panic/live/"+fn, "the live-mode process died from a panic in a background goroutine of the node", map[string]any{"output_tail": tail})
+		} else {
+			r.Fatalf("live mode child failed (exit %d): %s", res.ExitCode, tail)
+		}
+	case scenarios == 0:
+		r.Fatalf("live mode produced no scenario result")
+	}
+}
+
+// ---- child ---------------------------------------------------------------------------------------------------------------
+
+func streamRand(seed int64, stream string) *rand.Rand {
+	h := fnv.New64a()
+	h.Write([]byte(stream))
+	return rand.New(rand.NewSource(seed*1000003 + int64(h.Sum64()&0x7fffffffffff)))
+}
+
+func liveWorker(args []string) int {
+	logrus.SetOutput(io.Discard)
+	logrus.SetLevel(logrus.PanicLevel)
+	seed, _ := strconv.ParseInt(args[0], 10, 64)
+	led := worker.OpenLedger(args[1])
+	emit := func(l liveLine) {
+		b, _ := json.Marshal(l)
+		led.Log("%s", b)
+	}
+	dir, err := os.MkdirTemp(args[2], "live-")
+	if err != nil {
+		emit(liveLine{Kind: "fatal", What: err.Error()})
+		return 3
+	}
+	su := &suite{dir: dir, tmpl: map[string]*template{}, rand: func(stream string) *rand.Rand { return streamRand(seed, "live-"+stream) },
+		fatalf: func(f string, a ...any) { emit(liveLine{Kind: "fatal", What: fmt.Sprintf(f, a...)}); os.Exit(3) }}
+	su.capOK, su.capFail = measureIbltCapacity(su.rand("iblt-capacity"))
+	for _, sp := range []struct {
+		name string
+		n    int
+	}{{"long", 1100}, {"p1", 520}} {
+		tp, err := buildTemplate(dir, sp.name, su.rand("template-"+sp.name), dagx.Chain, sp.n)
+		if err != nil {
+			su.fatalf("%v", err)
+		}
+		su.tmpl[sp.name] = tp
+	}
+	specs := []struct {
+		class string
+		n     int
+		size  int
+	}{{"disjoint", 3, 200}, {"behind", 2, 300}, {"arbitrary", 4, 250}, {"private", 3, 150}, {"multi-page", 3, 150}, {"iblt-overflow", 2, 0},
+		{"far-behind", 2, 0}, {"disjoint", 4, 400}, {"iblt-overflow-late", 3, 0}, {"arbitrary", 2, 500}, {"multi-page", 4, 300}, {"behind", 4, 200}}
+	for i, sp := range specs {
+		sc := su.build(5000+i, sp.class, sp.n, sp.size, "live")
+		runLive(su, sc, emit)
+	}
+	return 0
+}
+
+type liveNet struct {
+	sc      *scenario
+	nodes   []*simNode
+	rnd     *rand.Rand
+	rmu     sync.Mutex
+	links   map[[2]int]chan []byte
+	stop    chan struct{}
+	wg      sync.WaitGroup
+	cnt     sync.Map // string -> *int64
+	evilMu  sync.Mutex
+	loss    int // percent
+	stopped atomic.Bool
+}
+
+func (ln *liveNet) count(k string, d int) {
+	v, _ := ln.cnt.LoadOrStore(k, new(int64))
+	atomic.AddInt64(v.(*int64), int64(d))
+}
+
+func (ln *liveNet) intn(n int) int {
+	ln.rmu.Lock()
+	defer ln.rmu.Unlock()
+	return ln.rnd.Intn(n)
+}
+
+func (ln *liveNet) send(from, to int, envelope interface{}) error {
+	if ln.stopped.Load() {
+		return nil
+	}
+	env := envelope.(*v2.Envelope)
+	wire, err := proto.Marshal(env)
+	if err != nil {
+		return err
+	}
+	typ := envType(env)
+	ln.count("sent/"+typ, 1)
+	x := ln.intn(100)
+	if x < ln.loss {
+		ln.count("lost/"+typ, 1)
+		return nil
+	}
+	copies := 1
+	if x >= 96 {
+		copies = 2
+		ln.count("duplicated/"+typ, 1)
+	}
+	for i := 0; i < copies; i++ {
+		select {
+		case ln.links[[2]int{from, to}] <- wire:
+		default:
+			ln.count("lost_link_full/"+typ, 1)
+		}
+	}
+	return nil
+}
+
+// pump delivers one directed link in order (as a gRPC stream does) through the production Handle.
+func (ln *liveNet) pump(from, to int, w *world) {
+	defer ln.wg.Done()
+	dest := ln.nodes[to]
+	conn := dest.conns[from]
+	handler := dest.p.(grpc.Protocol)
+	ch := ln.links[[2]int{from, to}]
+	for {
+		select {
+		case <-ln.stop:
+			return
+		case wire := <-ch:
+			env := &v2.Envelope{}
+			if err := proto.Unmarshal(wire, env); err != nil {
+				panic(err)
+			}
+			ln.count("handled/"+envType(env), 1)
+			_ = handler.Handle(conn, env)
+			// a hostile peer answers queries for refs it announced with the tampered transactions
+			if q := env.GetTransactionListQuery(); q != nil {
+				var entries []*v2.Transaction
+				ln.evilMu.Lock()
+				for _, rb := range q.Refs {
+					if e, ok := w.evil[hash.FromSlice(rb)]; ok {
+						entries = append(entries, &v2.Transaction{Data: e.data, Payload: e.payload})
+					}
+				}
+				ln.evilMu.Unlock()
+				if len(entries) > 0 {
+					ln.count("forged_list_answers", 1)
+					ln.count("invalid_offered", len(entries))
+					forged, _ := proto.Marshal(&v2.Envelope{Message: &v2.Envelope_TransactionList{TransactionList: &v2.TransactionList{
+						ConversationID: q.ConversationID, Transactions: entries, TotalMessages: 1, MessageNumber: 1}}})
+					select {
+					case ln.links[[2]int{to, from}] <- forged:
+					default:
+					}
+				}
+			}
+		}
+	}
+}
+
+func runLive(su *suite, sc *scenario, emit func(liveLine)) {
+	dir, err := os.MkdirTemp(su.dir, fmt.Sprintf("l%d-", sc.idx))
+	if err != nil {
+		su.fatalf("tmp: %v", err)
+	}
+	defer os.RemoveAll(dir)
+	rnd := su.rand(sc.stream())
+	ln := &liveNet{sc: sc, rnd: rnd, links: map[[2]int]chan []byte{}, stop: make(chan struct{}), loss: 3 + rnd.Intn(15)}
+	w := sc.w
+	violation := func(key, what string, wit map[string]any) {
+		if wit == nil {
+			wit = map[string]any{}
+		}
+		wit["scenario"], wit["class"], wit["nodes"], wit["topology"], wit["mode"] = sc.idx, sc.class, sc.n, sc.topo, "live"
+		emit(liveLine{Kind: "violation", Key: key, What: fmt.Sprintf("[live scenario %d %s N=%d %s] %s", sc.idx, sc.class, sc.n, sc.topo, what), Witness: wit})
+	}
+	for i := 0; i < sc.n; i++ {
+		n, err := newNode(dir, i, sc.tmpl[i], sc.init[i], liveGossipMs)
+		if err != nil {
+			su.fatalf("live scenario %d: %v", sc.idx, err)
+		}
+		ln.nodes = append(ln.nodes, n)
+	}
+	initial := make([]map[hash.SHA256Hash]bool, sc.n)
+	for i, n := range ln.nodes {
+		initial[i] = n.listing
+	}
+	for _, e := range sc.edges {
+		for _, d := range [][2]int{{e[0], e[1]}, {e[1], e[0]}} {
+			ln.links[d] = make(chan []byte, 4096)
+		}
+	}
+	for _, e := range sc.edges {
+		a, b := e[0], e[1]
+		ln.nodes[a].connect(b, func(_ grpc.Protocol, env interface{}, _ bool) error { return ln.send(a, b, env) })
+		ln.nodes[b].connect(a, func(_ grpc.Protocol, env interface{}, _ bool) error { return ln.send(b, a, env) })
+	}
+	for _, e := range sc.edges {
+		ln.wg.Add(2)
+		go ln.pump(e[0], e[1], w)
+		go ln.pump(e[1], e[0], w)
+	}
+	// virtual conversation timeouts (production: 30 s of wall clock). The period must stay well above the time one response takes to be
+	// produced and admitted under the race detector (seconds for a two-page range), otherwise every response would be stale on arrival.
+	ln.wg.Add(1)
+	go func() {
+		defer ln.wg.Done()
+		tk := time.NewTicker(liveTimeout)
+		defer tk.Stop()
+		for {
+			select {
+			case <-ln.stop:
+				return
+			case <-tk.C:
+				for _, n := range ln.nodes {
+					v2.VerifEvictConversations(n.p) // those that expired one period ago
+					v2.VerifExpireConversations(n.p)
+					ln.count("virtual_timeouts", 1)
+				}
+			}
+		}
+	}()
+	// the nodes' own applications create transactions while the sync runs; a hostile peer announces tampered ones
+	var wmu sync.Mutex // guards w.valid / w.order while transactions are created
+	created := 0
+	crnd := su.rand(sc.stream() + "-create")
+	for k := 0; k < 6; k++ {
+		time.Sleep(time.Duration(10+crnd.Intn(40)) * time.Millisecond)
+		n := ln.nodes[crnd.Intn(sc.n)]
+		head, err := n.st.Head(context.Background())
+		if err != nil || head.Equals(hash.EmptyHash()) {
+			continue
+		}
+		prev, err := n.st.GetTransaction(context.Background(), head)
+		if err != nil {
+			continue
+		}
+		payload := make([]byte, 16)
+		crnd.Read(payload)
+		wmu.Lock()
+		g := w.child(payload, prev)
+		wmu.Unlock()
+		if err := n.st.Add(context.Background(), g.tx, g.payload); err != nil {
+			su.fatalf("live create: %v", err)
+		}
+		created++
+		// forged Gossip from a neighbour announcing tampered refs
+		b := ln.nodes[crnd.Intn(sc.n)]
+		a := b.nbrs[crnd.Intn(len(b.nbrs))]
+		x, lc := b.st.XOR(dag.MaxLamportClock)
+		ln.evilMu.Lock()
+		wmu.Lock()
+		e := w.anyEvil(crnd, 0, lc+2)
+		wmu.Unlock()
+		ln.evilMu.Unlock()
+		if e != nil {
+			forged, _ := proto.Marshal(&v2.Envelope{Message: &v2.Envelope_Gossip{Gossip: &v2.Gossip{XOR: x.Xor(e.ref).Slice(), LC: lc, Transactions: [][]byte{e.ref.Slice()}}}})
+			select {
+			case ln.links[[2]int{a, b.idx}] <- forged:
+				ln.count("forged_gossip", 1)
+			default:
+			}
+		}
+	}
+	wmu.Lock()
+	var ux hash.SHA256Hash
+	for ref := range w.valid {
+		ux = ux.Xor(ref)
+	}
+	unionSize := len(w.valid)
+	wmu.Unlock()
+
+	// wait for convergence (watchdog: wall clock, inconclusive only)
+	start := time.Now()
+	watchdog := 100 * time.Second
+	conv := false
+	for time.Since(start) < watchdog {
+		all := true
+		for _, n := range ln.nodes {
+			if x, _ := n.st.XOR(dag.MaxLamportClock); !x.Equals(ux) {
+				all = false
+				break
+			}
+		}
+		if all {
+			conv = true
+			break
+		}
+		time.Sleep(40 * time.Millisecond)
+	}
+	elapsed := time.Since(start)
+	if conv {
+		time.Sleep(200 * time.Millisecond) // keep gossiping at the fixpoint for a moment: nothing may change any more
+	}
+	// stop: no new messages, handlers drain
+	ln.stopped.Store(true)
+	close(ln.stop)
+	ln.wg.Wait()
+	for _, n := range ln.nodes {
+		n.p.Stop()
+	}
+	time.Sleep(400 * time.Millisecond) // handler goroutines spawned by Handle finish (their context is cancelled)
+
+	// ---- safety verdicts
+	union := dagx.NewLedger()
+	for _, g := range w.order {
+		union.Add(g.tx.Ref(), g.tx.Clock())
+	}
+	admissions := 0
+	for i, n := range ln.nodes {
+		seen := map[hash.SHA256Hash]bool{}
+		for _, tx := range n.drain() {
+			admissions++
+			if _, ok := w.valid[tx.Ref()]; !ok {
+				kind := "unknown-transaction"
+				if e, bad := w.evil[tx.Ref()]; bad {
+					kind = e.kind
+				}
+				violation("C07/safety/invalid-admitted/"+kind, fmt.Sprintf("node %s admitted %s which is not one of the generated valid transactions", n.name, tx.Ref()), nil)
+			}
+			if seen[tx.Ref()] || initial[i][tx.Ref()] {
+				violation("C07/safety/admitted-twice", fmt.Sprintf("node %s was notified twice of the admission of %s", n.name, tx.Ref()), nil)
+			}
+			seen[tx.Ref()] = true
+		}
+		txs, err := n.st.FindBetweenLC(context.Background(), 0, dag.MaxLamportClock)
+		if err != nil {
+			su.fatalf("FindBetweenLC: %v", err)
+		}
+		now := map[hash.SHA256Hash]bool{}
+		led := dagx.NewLedger()
+		for _, tx := range txs {
+			now[tx.Ref()] = true
+			led.Add(tx.Ref(), tx.Clock())
+			if _, ok := w.valid[tx.Ref()]; !ok {
+				kind := "unknown-transaction"
+				if e, bad := w.evil[tx.Ref()]; bad {
+					kind = e.kind
+				}
+				violation("C07/safety/invalid-admitted/"+kind, fmt.Sprintf("node %s lists %s which is not one of the generated valid transactions", n.name, tx.Ref()), nil)
+			}
+		}
+		for ref := range initial[i] {
+			if !now[ref] {
+				violation("C07/safety/transaction-removed", fmt.Sprintf("node %s no longer lists %s", n.name, ref), nil)
+				break
+			}
+		}
+		for ref := range seen {
+			if !now[ref] {
+				violation("C07/safety/transaction-removed", fmt.Sprintf("node %s no longer lists %s which it admitted during the run", n.name, ref), nil)
+				break
+			}
+		}
+		// digests must describe the set the node holds, converged or not
+		if bad := dagx.Compare(n.st, led, su.rand(sc.stream()+"-compare"), true); len(bad) > 0 {
+			violation("C07/end/digest-inconsistent", fmt.Sprintf("node %s: %s", n.name, strings.Join(bad, "; ")), nil)
+		}
+		if conv && len(now) != unionSize {
+			violation("C07/end/set-differs", fmt.Sprintf("node %s reports the union's XOR but lists %d of %d transactions", n.name, len(now), unionSize), nil)
+		}
+	}
+	if !conv {
+		var miss []string
+		for _, n := range ln.nodes {
+			txs, _ := n.st.FindBetweenLC(context.Background(), 0, dag.MaxLamportClock)
+			miss = append(miss, fmt.Sprintf("%s holds %d/%d", n.name, len(txs), unionSize))
+		}
+		emit(liveLine{Kind: "inconclusive", What: fmt.Sprintf("live scenario %d (%s N=%d %s, loss %d%%) did not converge within the %s watchdog: %s", sc.idx, sc.class, sc.n, sc.topo, ln.loss, watchdog, strings.Join(miss, ", "))})
+	}
+	for _, n := range ln.nodes {
+		_ = n.st.Shutdown()
+		_ = n.db.Close(context.Background())
+	}
+	counters := map[string]int{"scenarios": 1, "admissions_observed": admissions, "transactions_created_midrun": created}
+	ln.cnt.Range(func(k, v any) bool {
+		counters[k.(string)] = int(atomic.LoadInt64(v.(*int64)))
+		return true
+	})
+	if conv {
+		counters["converged"] = 1
+	}
+	emit(liveLine{Kind: "scenario", Counters: counters, Sample: map[string]any{"mode": "live", "scenario": sc.idx, "class": sc.class, "nodes": sc.n, "topology": sc.topo,
+		"union": unionSize, "loss_percent": ln.loss, "converged": conv, "wall_ms_to_converge_not_a_verdict": elapsed.Milliseconds(),
+		"fingerprint": fmt.Sprintf("%s|N=%d|%s|union=%s|diff=%s|loss=%d|conv=%v", sc.class, sc.n, sc.topo, bucket(unionSize), bucket(sc.maxDiff), ln.loss/10, conv)}})
 }
